@@ -492,6 +492,8 @@ impl Ctx {
                         cases: per,
                         failure_persistence: None,
                         max_shrink_iters: 400,
+                        // wall-clock bound on shrinking only (affects the minimality of a replay, never a verdict)
+                        max_shrink_time: 60_000,
                         rng_seed: RngSeed::Fixed(s),
                         verbose: 0,
                         ..Config::default()
